@@ -40,6 +40,7 @@ MIN_REACH = {
     "scatter_colors_compared_on_a_log_scale": {"quick": 40, "thorough": 600},
     "scatter_series_of_more_than_51_points": {"quick": 8, "thorough": 150},
     "heat_maps_drawn_under_a_non_default_mesh_shading_setting": {"quick": 6, "thorough": 100},
+    "colour_maps_given_as_colormap_objects": {"quick": 8, "thorough": 150},
     "panels_compared": {"quick": 150, "thorough": 2500},
     "hist_series_compared": {"quick": 80, "thorough": 1200},
     "heatmap_cells_compared": {"quick": 500, "thorough": 8000},
@@ -510,6 +511,11 @@ def run_case(ctx, case):
         if "vmin" in o or "vmax" in o:
             ctx.count("explicit_colour_limits")
     kw = {k: v for k, v in o.items() if not k.startswith("_")}
+    if isinstance(kw.get("colormap"), str) and case["dseed"] % 3 == 2:
+        # the colour map is given as a Colormap OBJECT (matplotlib.colormaps[...]), not by its name
+        import matplotlib
+        kw["colormap"] = matplotlib.colormaps[kw["colormap"]]
+        ctx.count("colour_maps_given_as_colormap_objects")
     if kw.get("zlabels") == "custom":
         kw["zlabels"] = ["L%d" % i for i in range(max(3, len(zvals)))]
     if kind == "lineplot_multivar" and kw.get("colorbar"):
